@@ -40,7 +40,7 @@ ASSUMPTIONS = [
 ]
 BUDGET = {"quick": 85, "thorough": 1500}
 FLOORS = {"cli_runs": {"quick": 500, "thorough": 5000}, "accepted": {"quick": 350, "thorough": 3500}, "loaded": {"quick": 250, "thorough": 2500},
-          "targets_evaluated": {"quick": 250, "thorough": 2500}, "jacobian_accounts": {"quick": 150, "thorough": 1500}, "constraint_checks": {"quick": 3000, "thorough": 30000}, "initial_value_checks": {"quick": 60, "thorough": 600},
+          "targets_evaluated": {"quick": 250, "thorough": 2500}, "jacobian_accounts": {"quick": 150, "thorough": 1500}, "constraint_checks": {"quick": 3000, "thorough": 30000}, "initial_value_checks": {"quick": 60, "thorough": 600}, "runs_completed": {"quick": 40, "thorough": 700},
           "subcommands": 4}
 
 MODELS = ["JC69", "K80", "HKY", "SYM", "GTR", "SRD06", "MG94", "LG", "WAG"]
@@ -165,6 +165,8 @@ def cases(tier, seed):
                 e["warmup"] = 10
         c["extras"] = e
         out.append(c)
+    for i, c in enumerate(out):
+        c["run"] = tier == "thorough" or i % 8 == 0
     return out
 
 
@@ -426,6 +428,9 @@ def check_loaded(case, spec, dic, V, C, detail, feat, torch):
     # (d) Jacobian accounting
     if sub != "map" and "joint.jacobian" in dic:
         jacobian_account(case, dic, V, C, detail, torch)
+    # (f) the emitted configuration runs: every Runnable (optimiser / sampler / loggers) executes a few iterations
+    if not V and case.get("run"):
+        run_emitted(case, V, C, detail)
     # (e) the constraining transforms really constrain: with the declared bounds kept (--debug) every transformed
     # parameter stays inside them wherever its unconstrained leaves are moved
     if not V:
@@ -540,6 +545,37 @@ def initial_values(case, dic, V, C, detail, torch):
             got = tree.node_heights.detach().numpy()[n:]
             if not near(got, exp, 1e-6):
                 V.append(tt.viol("C19:initial-value:heights-from-tree:" + case["heights"], "--keep / --heights_init tree requested, node heights %s differ from the input tree %s" % (got, exp), **detail))
+
+
+WIRING = {"KeyError", "AttributeError", "TypeError", "NameError", "IndexError", "NotImplementedError", "ZeroDivisionError", "FileNotFoundError", "JSONParseError", "AssertionError",
+          "UnboundLocalError", "ModuleNotFoundError", "ImportError"}
+SHAPE_WORDS = ("size of tensor", "shape", "dimension", "expand", "broadcast", "must match", "sizes of tensors", "index")
+
+
+def run_emitted(case, V, C, detail):
+    """Numerical trouble *during* a run (an optimiser stepping out of a parameter's support, eigh failing on a matrix
+    full of NaN) is not what the property speaks about (it speaks about the initial point) and is only counted;
+    what is judged is the plumbing: a run that dies of a missing attribute / key / wrong type / shape mismatch /
+    unimplemented method in a logger, sampler, operator, adaptor or the algorithm's own bookkeeping."""
+    from ..work import shared
+
+    res = shared.cli_config(case, [], run=True)
+    r = res["run"]
+    C["runs_started"] = C.get("runs_started", 0) + 1
+    if r is None:
+        return
+    if r["ok"]:
+        C["runs_completed"] = C.get("runs_completed", 0) + 1
+        C.setdefault("algorithms_run", [])
+        C["algorithms_run"] = sorted(set(C["algorithms_run"]) | {"%s:%s" % (case["sub"], r["algorithm"])})
+        return
+    exc, msg = r["exception"], r["message"].lower()
+    if exc in WIRING or (exc == "RuntimeError" and any(w in msg for w in SHAPE_WORDS)):
+        V.append(tt.viol("C19:run-raises:%s:%s:%s" % (case["sub"], exc, r["where"]), "the emitted configuration loads and has a finite target but running it for a few iterations raises %s in %s: %s [%s]" % (
+            exc, r["where"], r["message"][:120], " ".join(detail["argv"])), **detail))
+    else:
+        C["runs_numerical_failure_not_judged"] = C.get("runs_numerical_failure_not_judged", 0) + 1
+        C["numerical_failures"] = ["%s %s@%s" % (case["sub"], exc, r["where"])]
 
 
 def constraints_respected(case, dic, V, C, detail, torch):
